@@ -126,7 +126,7 @@ TOp ==
   \/ /\ IsOp("consume", "head", "cas") /\ polling[P] >= 0 /\ ~Ev.ok /\ spc[Sub(P)] = "recede" /\ Stutter
   \/ /\ Ev.k = "op" /\ Ev.fn \notin LogFns /\ Stutter        \* streams manager, wakers, ...: not part of this model
 
-TOther == Ev.k \in {"park", "unpark", "wake", "suspended", "panic", "final"} /\ Stutter
+TOther == Ev.k \in {"park", "unpark", "wake", "suspended", "panic", "final", "slept"} /\ Stutter
 
 \* the C09 invariants of MmapLog, evaluated on the behaviour of the real channel
 BadOf == IF ~InvTails THEN "InvTails"
